@@ -50,6 +50,10 @@ type nodeJ struct {
 	C    *nodeJ  `json:"c,omitempty"`
 	Pass bool    `json:"pass,omitempty"`
 	Fs   []fldJ  `json:"fs,omitempty"`
+	// Sh > 0: structurally identical subtrees carrying the same Sh are built ONCE and the one core object is shared by all
+	// their parents (siblings derived from one parent core). Model and oracle see separate copies, which is the same thing
+	// as long as deriving from a core does not touch it (only used for hook chains over a leaf).
+	Sh int `json:"sh,omitempty"`
 }
 
 func kf(keys ...int) []fldJ {
@@ -265,6 +269,7 @@ type world struct {
 	buffered  []*zapcore.BufferedWriteSyncer
 	// consoleMod4: io leaves whose id ≡ 3 (mod 4) encode with the console encoder instead of the JSON encoder
 	consoleMod4 bool
+	shared      map[int]zapcore.Core // cores built once for subtrees with the same Sh
 	// kept: every entry an observer recorded, with the description taken when it was drained (C07 re-checks them)
 	kept []keptEntry
 }
@@ -333,6 +338,19 @@ func jsonEnc() zapcore.Encoder {
 }
 
 func (w *world) build(n *nodeJ) zapcore.Core {
+	if n.Sh > 0 {
+		if c, ok := w.shared[n.Sh]; ok {
+			return c
+		}
+		m := *n
+		m.Sh = 0
+		c := w.build(&m)
+		if w.shared == nil {
+			w.shared = map[int]zapcore.Core{}
+		}
+		w.shared[n.Sh] = c
+		return c
+	}
 	switch n.T {
 	case "leaf":
 		if n.IO {
@@ -594,6 +612,7 @@ type specPath struct {
 	incrs  []int    // ids of the IncreaseLevel wrappers on the path
 	drops  bool     // a dropping sampler lies on the path
 	hooks  []int    // entry hooks whose wrapped core contains the leaf
+	hookNs []*nodeJ // the hook NODES (two nodes may carry one id when a shared parent core is wrapped by siblings)
 	samps  []int
 	lazies []int
 }
@@ -622,6 +641,7 @@ func specPaths(n *nodeJ, rejected map[int]bool) []specPath {
 			}
 		case "hook":
 			ps[i].hooks = append(ps[i].hooks, n.ID)
+			ps[i].hookNs = append(ps[i].hookNs, n)
 		case "samp":
 			ps[i].samps = append(ps[i].samps, n.ID)
 			if !n.Pass {
